@@ -69,6 +69,15 @@ func genC18(t *rapid.T) C18Case {
 		if rapid.IntRange(0, 3).Draw(t, "kargname") == 0 && !k.IsFlag() {
 			o.ArgName = "thing"
 		}
+		if k.Elem() == 's' {
+			// modifiers that restrict / suggest values: they must not cost the option any of the listed facts
+			switch rapid.IntRange(0, 3).Draw(t, "kvalues") {
+			case 0:
+				o.Valid = []string{"dev", "prod", "dflt"}
+			case 1:
+				o.Suggested = []string{"alpha", "beta"}
+			}
+		}
 		switch k {
 		case KBool:
 			o.DefBool = rapid.Bool().Draw(t, "kdb")
@@ -446,7 +455,7 @@ func checkC18(c C18Case, st *evid.Stats) error {
 }
 
 var propC18 = &Prop[C18Case]{ID: "C18", Sub: "help",
-	Rule:  "rapid: command trees where the root declares every one of the 12 option kinds (random aliases, required+message, env binding, single/multi-line descriptions, arg names, defaults) plus random options/commands below, HelpSynopsisArg declarations; evaluations = command levels whose help text was read structurally and compared across Help(), help option, help command and help <topic>; non-trivial = level has an option of a kind the golden tests never render (Increment, optional kinds, Float64Slice) or an inherited option or >=2 aliases; distinct by multiset of (kind, required, env, alias count) + number of children",
+	Rule:  "rapid: command trees where the root declares every one of the 12 option kinds (random aliases, required+message, env binding, single/multi-line descriptions, arg names, defaults, ValidValues / SuggestedValues on string kinds) plus random options/commands below, HelpSynopsisArg declarations; evaluations = command levels whose help text was read structurally and compared across Help(), help option, help command and help <topic>; non-trivial = level has an option of a kind the golden tests never render (Increment, optional kinds, Float64Slice) or an inherited option or >=2 aliases; distinct by multiset of (kind, required, env, alias count) + number of children",
 	Gen:   genC18,
 	Check: checkC18,
 }
